@@ -29,6 +29,7 @@ def run(ctx):
     check_layout(ctx, prog)
     check_outbuf(ctx, prog)
     check_case(ctx, prog)
+    check_count(ctx, prog)
     return __doc__.split('\n\n', 1)[1]
 
 
@@ -1366,3 +1367,61 @@ def conj_or(c):
     if c.get('k') == 'bin' and c.get('op') == '||':
         return conj_or(c['x']) + conj_or(c['y'])
     return [c]
+
+
+def check_count(ctx, prog):
+    """C08.count: String::count() - the number of code points - agrees with the decoder on valid text.  count() is interpreted
+    (scansim) on valid UTF-8 strings built by the checker's own encoder: every valid lead byte (C2..F4) with its smallest and
+    largest continuation, alone, between ASCII characters and next to each other; the expected result is the number of code
+    points encoded (what chars() returns for the same text, C08.layout)."""
+    import scansim
+    f = fn1(prog, 'asl::String::count', '()const')
+    ctx.analysed(f)
+    role = 'count():code points of valid UTF-8'
+
+    def seq_for_lead(lead, hi):
+        if lead < 0xe0:
+            lo_c, hi_c = (lead & 0x1f) << 6, ((lead & 0x1f) << 6) | 0x3f
+        elif lead < 0xf0:
+            lo_c, hi_c = max((lead & 0x0f) << 12, 0x800), ((lead & 0x0f) << 12) | 0xfff
+            if lead == 0xed:
+                hi_c = 0xd7ff
+        else:
+            lo_c, hi_c = max((lead & 0x07) << 18, 0x10000), min(((lead & 0x07) << 18) | 0x3ffff, 0x10ffff)
+        c = hi_c if hi else lo_c
+        return c, _ref_utf8(c, utf8_len_of(c))
+    cps = []
+    for lead in range(0xc2, 0xf5):
+        for hi in (False, True):
+            c, b = seq_for_lead(lead, hi)
+            assert b[0] == lead, (hex(lead), hex(c), b)
+            cps.append((c, b))
+    texts = []
+    for c, b in cps:
+        texts.append(([c], b))
+        texts.append(([0x41, c, 0x7a], [0x41] + b + [0x7a]))
+    for (c1, b1), (c2, b2) in zip(cps, cps[7:] + cps[:7]):
+        texts.append(([c1, c2], b1 + b2))
+    texts.append(([], []))
+    texts.append(([0x7f, 0x01], [0x7f, 0x01]))
+    bad = und = None
+    for codes, by in texts:
+        bufs = {'T': [x - 256 if x >= 128 else x for x in by] + [0]}
+        r = scansim.Run(prog, f, bufs, call_ptrs={'str': ('P', 'T', 0), 'data': ('P', 'T', 0)}, methods={'*': 'interp'}, mems={'_len': len(by)}, objects=True)
+        ctx.evaluations += 1
+        try:
+            got = r.run()
+        except scansim.OOB as o:
+            bad = 'count() of the valid text %s reads outside it: %s' % (' '.join('%02x' % x for x in by), o)
+            break
+        except (scansim.Unsupported, TypeError, KeyError) as u:
+            und = str(u)
+            break
+        if got != len(codes):
+            bad = 'count() of the valid text %s (%s) is %s, not %d: it disagrees with chars() and the iteration on that text' % (
+                ' '.join('%02x' % x for x in by), ' '.join('U+%04X' % c for c in codes), got, len(codes))
+            break
+    if und:
+        ctx.undecided('C08.count', f['pq'], role, fwhere(f), 'outside the interpreted fragment: %s' % und)
+    else:
+        ctx.check(bad is None, 'C08.count', f['pq'], role, fwhere(f), 'interpreted on %d valid texts covering every lead byte C2..F4 with its extreme continuations' % len(texts), bad or '')
